@@ -272,33 +272,63 @@ def ploidy3_case(ctx, work):
     ctx.violate("triploid input with local alleles was accepted", {"vcf_spec": spec}, "ValueError", "success")
 
 
-def existing_fields_case(ctx, work):
-    """files that already carry LAA/LPL: the stored arrays are the file's own values"""
-    spec = gen_spec(ctx.rng, with_existing=True)
-    for rec in spec["records"]:
-        rec["format"] = rec["format"] + ["LAA", "LPL"]
-        for s in rec["samples"]:
-            s["LAA"] = [ctx.rng.randrange(1, 5) for _ in range(ctx.rng.choice([1, 2]))]
-            s["LPL"] = [ctx.rng.randrange(0, 99) for _ in range(ctx.rng.choice([1, 3]))]
-    path = vcfgen.materialise(spec, pathlib.Path(work) / "ex", "vcf.gz+tbi")
-    ctx.case(("existing", repr(spec["records"])[:200]), True)
-    ctx.count("existing_fields")
+def existing_fields_case(ctx, work, mixed=False):
+    """files that already carry LAA/LPL: the stored arrays are the file's own values.  `mixed`: the header declares both,
+    but single records carry both, only LPL (LAA is then derived from the genotype) or neither (both derived)"""
+    rng = ctx.rng
+    spec = gen_spec(rng, with_existing=True)
+    modes = []
+    for ri, rec in enumerate(spec["records"]):
+        mode = "both" if not mixed else (["lpl_only", "both", "neither"][ri] if ri < 3 else rng.choice(["both", "lpl_only", "neither"]))
+        if rec["_ploidy"] == 1 and mode == "neither":
+            mode = "both"               # (haploid derived LPL: known finding K3, exercised elsewhere)
+        modes.append(mode)
+        if mode in ("both", "lpl_only"):
+            rec["format"] = rec["format"] + (["LAA"] if mode == "both" else []) + ["LPL"]
+            for s_ in rec["samples"]:
+                if mode == "both":
+                    s_["LAA"] = [rng.randrange(1, 5) for _ in range(rng.choice([1, 2]))]
+                s_["LPL"] = [rng.randrange(0, 99) for _ in range(rng.choice([1, 3]))]
+    tag = "exm" if mixed else "ex"
+    path = vcfgen.materialise(spec, pathlib.Path(work) / tag, "vcf.gz+tbi")
+    ctx.case(("existing", mixed, repr(spec["records"])[:200]), True)
+    ctx.count("existing_fields_mixed" if mixed else "existing_fields")
+    inp = {"vcf_spec": spec, "record_carries": modes}
     try:
-        root = convert(path, pathlib.Path(work) / "ex.zarr", True)
+        root = convert(path, pathlib.Path(work) / f"{tag}.zarr", True)
         laa, lpl = root["call_LAA"][:], root["call_LPL"][:]
     except Exception as e:  # noqa: BLE001
-        ctx.violate(f"file carrying LAA/LPL failed to convert: {type(e).__name__}: {e}", {"vcf_spec": spec}, "arrays", repr(e))
+        ctx.violate(f"file carrying LAA/LPL ({'mixed records' if mixed else 'every record'}) failed to convert: {type(e).__name__}: {e}",
+                    inp, "arrays", repr(e))
         return
+    laa = laa if laa.ndim == 3 else laa[:, :, None]       # every value has one element: no inner dimension
+    lpl = lpl if lpl.ndim == 3 else lpl[:, :, None]
     for ri, rec in enumerate(spec["records"]):
-        for si, s in enumerate(rec["samples"]):
-            for name, arr in (("LAA", laa), ("LPL", lpl)):
-                if arr.ndim == 2:        # every value has one element: no inner dimension
-                    exp, got = s[name], [int(arr[ri, si])]
+        orc = oracle_record(rec)
+        for si, s_ in enumerate(rec["samples"]):
+            got_laa = [int(x) for x in laa[ri, si]]
+            got_lpl = [int(x) for x in lpl[ri, si]]
+            exp_laa = (s_["LAA"] if modes[ri] == "both" else orc[si][0])
+            exp_laa = exp_laa + [FILL] * (laa.shape[2] - len(exp_laa))
+            if got_laa != exp_laa:
+                what = "existing LAA not respected" if modes[ri] == "both" else \
+                    f"record carries {'LPL only' if modes[ri] == 'lpl_only' else 'neither field'}: LAA is not the call's distinct ALT alleles"
+                ctx.violate(f"{what} at [{ri},{si}] (GT={s_['GT']}): {got_laa} != {exp_laa}", inp, exp_laa, got_laa)
+                return
+            if modes[ri] in ("both", "lpl_only"):
+                exp = s_["LPL"] + [FILL] * (lpl.shape[2] - len(s_["LPL"]))
+                if got_lpl != exp:
+                    ctx.violate(f"existing LPL not respected at [{ri},{si}]: {got_lpl} != {exp}", inp, exp, got_lpl)
+                    return
+            else:
+                ent = orc[si][1]
+                if ent is None:
+                    ok = all(v in (MISSING, FILL) for v in got_lpl) and got_lpl[0] == MISSING
                 else:
-                    exp = s[name] + [FILL] * (arr.shape[2] - len(s[name]))
-                    got = [int(x) for x in arr[ri, si]]
-                if got != exp:
-                    ctx.violate(f"existing {name} not respected at [{ri},{si}]: {got} != {exp}", {"vcf_spec": spec}, exp, got)
+                    ok = all(matches(ent[k], v) if k < len(ent) else v == FILL for k, v in enumerate(got_lpl))
+                if not ok:
+                    ctx.violate(f"record carrying neither field: derived LPL at [{ri},{si}] = {got_lpl} (GT={s_['GT']}, PL={s_.get('PL')})",
+                                inp, str(ent), got_lpl)
                     return
 
 
@@ -327,6 +357,7 @@ def run(ctx):
         for _ in range(6 if ctx.thorough else 2):
             ploidy3_case(ctx, work)
             existing_fields_case(ctx, work)
+            existing_fields_case(ctx, work, mixed=True)
     finally:
         shutil.rmtree(work, ignore_errors=True)
 
